@@ -1,7 +1,8 @@
 """
 progsim -- progress wrappers under a simulated clock and a simulated consumer (mode "wrap"),
 and pmap on a REAL ProcessPoolExecutor whose completion order is decided by a virtual-time
-pool model and enforced through per-item semaphore gates (mode "pool").   (C20, part of C15)
+pool model and enforced through per-item FIFO gates (mode "pool"); pool runs may be histories of several
+pmap calls, earlier ones with an injected worker-process death or task failure.   (C20, part of C15)
 
 Simulator-owned: time.time as seen by esutil.pbar, laziness/length/failures of the wrapped
 iterable, when the consumer abandons the iterator, per-item latencies and therefore which
@@ -342,8 +343,21 @@ def plan_pool(S, prop, tier, avoid):
         kw["total"] = max(1, n)
     tiebreak = pick(r, ["index", "reverse"])
     ops = [{"k": "item", "lat": L[i]} for i in range(n)]
+    # history: earlier pmap calls of the same program, some with an injected fault (a task that kills its
+    # worker process, a task that raises); the call judged above all is the one that FOLLOWS them
+    pre = []
+    h = S.py("history")
+    if chance(h, 0.3):
+        for _ in range(wpick(h, [(1, 3), (2, 1)])):
+            pn = h.randrange(1, 7)
+            pc = {"nproc": nproc if chance(h, 0.7) else h.randrange(1, 5), "chunksize": wpick(h, [(1, 3), (2, 1), (pn + 1, 0.5)]),
+                  "lat": [round(h.uniform(0.5, 1.5), 2) if chance(h, 0.7) else float(h.randrange(1, 3)) for _ in range(pn)],
+                  "tiebreak": pick(h, ["index", "reverse"]), "fault": None}
+            if chance(h, 0.55):
+                pc["fault"] = {"kind": wpick(h, [("die", 3), ("raise", 2)]), "at": h.randrange(pn)}
+            pre.append(pc)
     return {"cfg": {"nproc": nproc, "chunksize": chunksize, "kw": kw, "work": work, "pipeline": pipeline,
-                    "clock": draw_clock(S.py("clock")), "tiebreak": tiebreak, "lat_regime": regime},
+                    "clock": draw_clock(S.py("clock")), "tiebreak": tiebreak, "lat_regime": regime, "pre": pre},
             "ops": ops}
 
 
@@ -652,7 +666,23 @@ def pool_model(nitems, nproc, chunksize, lat, tiebreak):
 
 # =========================================================================== gated task
 
-_G = {}
+import select
+import struct
+
+_REC = struct.Struct("<ci")      # event record written to the events FIFO: kind (s/d), item index
+_PDEATH_SET = [False]
+
+
+def _die_with_parent():
+    """pool workers must not outlive the process that owns the pool (Linux prctl PR_SET_PDEATHSIG)"""
+    if _PDEATH_SET[0]:
+        return
+    _PDEATH_SET[0] = True
+    try:
+        import ctypes
+        ctypes.CDLL(None, use_errno=True).prctl(1, 9, 0, 0, 0)
+    except Exception:
+        pass
 
 
 def _work(kind, payload):
@@ -673,36 +703,87 @@ def _work(kind, payload):
     raise ValueError(kind)
 
 
+class InjectedTaskError(ValueError):
+    pass
+
+
+def _emit(calldir, kind, i):
+    """report to the controller; never blocks and never fails: when the controller has gone (the call
+    ended, e.g. after an injected fault) there is nobody to tell"""
+    try:
+        fd = os.open(os.path.join(calldir, "ev"), os.O_WRONLY | os.O_NONBLOCK)
+    except OSError:
+        return
+    try:
+        os.write(fd, _REC.pack(kind, i))     # 5 bytes: atomic (< PIPE_BUF)
+    except OSError:
+        pass
+    finally:
+        os.close(fd)
+
+
 def gated(item):
-    i = item[0]
-    g = _G
-    with g["lock"]:
-        g["w"].send(("s", i))
-    g["gates"][i].acquire()
-    out = _work(g["work"], item[1])
-    with g["lock"]:
-        g["w"].send(("d", i))
+    """The task handed to pmap.  Everything it needs travels in the item (index, payload, rendezvous
+    directory, kind of work, injected fault), so it does not depend on what the worker process inherited
+    at fork time: it works the same whether the pool is created per call or kept between calls.
+    Reports start(i), waits until the controller opens gate i, works, reports done(i)."""
+    i, payload, calldir, work, fault = item
+    _die_with_parent()
+    _emit(calldir, b"s", i)
+    try:
+        fd = os.open(os.path.join(calldir, "g%d" % i), os.O_RDWR)     # O_RDWR on a FIFO never blocks, never sees EOF
+    except OSError:
+        fd = None                                                     # the call is over and its directory gone
+    if fd is not None:
+        try:
+            marker = os.path.join(calldir, "open_all")
+            while True:
+                r, _w, _x = select.select([fd], [], [], 0.05)
+                if r:
+                    os.read(fd, 1)
+                    break
+                if os.path.exists(marker) or not os.path.isdir(calldir):
+                    break
+        finally:
+            os.close(fd)
+    if fault == "die":
+        os._exit(13)                  # the worker process dies in the middle of its task
+    if fault == "raise":
+        _emit(calldir, b"d", i)
+        raise InjectedTaskError("injected failure of item %d" % i)
+    out = _work(work, payload)
+    _emit(calldir, b"d", i)
     return out
 
 
 def plain(item):
-    return _work(_G["work"], item[1])
+    return _work(item[3], item[1])
 
 
-def _controller(sigma, gates, rconn, report, watchdog):
+def _controller(sigma, calldir, report, watchdog, stop_after=None):
+    """Releases the gates in the order sigma, waiting for done(i) before the next release.
+    stop_after: index of an item whose task kills its worker (no done record can follow)."""
     started = set()
     done = set()
     start_order = []
     status = "ok"
+    ev = os.open(os.path.join(calldir, "ev"), os.O_RDWR)
+    keep = []
     try:
         def pump(pred):
             t_end = _REAL_MONO() + watchdog
             while not pred():
                 left = t_end - _REAL_MONO()
-                if left <= 0 or not rconn.poll(left):
+                if left <= 0:
                     return False
-                kind, i = rconn.recv()
-                if kind == "s":
+                r, _w, _x = select.select([ev], [], [], left)
+                if not r:
+                    return False
+                data = os.read(ev, _REC.size)
+                while len(data) < _REC.size:
+                    data += os.read(ev, _REC.size - len(data))
+                kind, i = _REC.unpack(data)
+                if kind == b"s":
                     started.add(i)
                     start_order.append(i)
                 else:
@@ -712,7 +793,12 @@ def _controller(sigma, gates, rconn, report, watchdog):
             if not pump(lambda: i in started):
                 status = "inconclusive:start(%d) never arrived" % i
                 break
-            gates[i].release()
+            fd = os.open(os.path.join(calldir, "g%d" % i), os.O_RDWR | os.O_NONBLOCK)
+            os.write(fd, b"x")
+            keep.append(fd)           # the byte stays in the pipe while this end is open
+            if stop_after is not None and i == stop_after:
+                status = "fault-injected"
+                break
             if not pump(lambda: i in done):
                 status = "inconclusive:done(%d) never arrived" % i
                 break
@@ -720,12 +806,22 @@ def _controller(sigma, gates, rconn, report, watchdog):
         status = "inconclusive:controller %r" % (e,)
     finally:
         if status != "ok":
-            for g in gates:
-                g.release()
+            try:
+                with open(os.path.join(calldir, "open_all"), "w"):
+                    pass
+            except OSError:
+                pass
         try:
             report.send((status, start_order, sorted(done)))
         except Exception:
             pass
+        if status != "ok":
+            _time.sleep(0.3)          # waiting tasks poll the marker every 50 ms
+        for fd in keep + [ev]:
+            try:
+                os.close(fd)
+            except OSError:
+                pass
 
 
 _REAL_MONO = _time.monotonic
@@ -824,8 +920,108 @@ def _eq(a, b):
     return type(a) == type(b) and a == b
 
 
-def execute_pool(script, run, env):
+def _run_call(run, root, callno, items, sigma, nproc, chunksize, kw, clock, stop_after=None):
+    """One pmap call on real worker processes under the enforced completion order sigma.
+    Returns (status, got, err)."""
     import esutil.pbar as pb
+    calldir = os.path.join(root, "call%d" % callno)
+    os.makedirs(calldir)
+    os.mkfifo(os.path.join(calldir, "ev"))
+    for it in items:
+        os.mkfifo(os.path.join(calldir, "g%d" % it[0]))
+    items = [(it[0], it[1], calldir, it[3], it[4]) for it in items]
+    ctx = multiprocessing.get_context("fork")
+    rep_r, rep_w = ctx.Pipe(duplex=False)
+    watchdog = float(os.environ.get("VERIF_POOL_WATCHDOG", "8"))
+    sys.stdout.flush()
+    sys.stderr.flush()
+    cpid = os.fork()
+    if cpid == 0:
+        try:
+            rep_r.close()
+            _controller(sigma, calldir, rep_w, watchdog, stop_after)
+        finally:
+            os._exit(0)
+    rep_w.close()
+    err = None
+    got = None
+    status = "inconclusive:no report"
+    try:
+        with _ClockInstalled(clock, False):
+            try:
+                got = pb.pmap(gated, items, chunksize=chunksize, nproc=nproc, **kw)
+            except Exception as e:
+                err = e
+    finally:
+        try:
+            if rep_r.poll(watchdog * 2 + 10):
+                status, _start_order, _done = rep_r.recv()
+        except Exception:
+            pass
+        try:
+            pid_, st_ = os.waitpid(cpid, os.WNOHANG)
+            if pid_ == 0:
+                try:
+                    with open(os.path.join(calldir, "open_all"), "w"):
+                        pass
+                except OSError:
+                    pass
+                os.kill(cpid, 9)
+                os.waitpid(cpid, 0)
+        except OSError:
+            pass
+        try:
+            rep_r.close()
+        except Exception:
+            pass
+    return status, got, err
+
+
+def _pre_call(run, root, callno, pc, judge, clock):
+    """An earlier pmap call of the same program (history): small, optionally with an injected fault --
+    a task that kills its worker process ('die') or raises ('raise').  A faulty call must raise; what
+    matters is that the calls AFTER it are right."""
+    n = len(pc["lat"])
+    fault = pc.get("fault")
+    items = [(i, i * 5 + 2, None, "square", (fault["kind"] if fault and fault["at"] == i else None)) for i in range(n)]
+    sigma, comp, makespan, chunks = pool_model(n, pc["nproc"], max(1, pc["chunksize"]), [float(x) for x in pc["lat"]],
+                                               pc.get("tiebreak", "index"))
+    stop_after = fault["at"] if fault and fault["kind"] == "die" and fault["at"] < n else None
+    if fault and fault["kind"] == "raise" and fault["at"] < n:
+        # items after the failing one in its chunk are never started: stop the controller there as well
+        stop_after = fault["at"]
+    buf = io.StringIO()
+    status, got, err = _run_call(run, root, callno, items, sigma, pc["nproc"], max(1, pc["chunksize"]),
+                                 {"file": buf}, clock, stop_after)
+    run.virtual_s += makespan
+    faulty = bool(fault) and fault["at"] < n
+    feats = {"call": "earlier", "fault": fault["kind"] if faulty else "none"}
+    if faulty:
+        run.fault("worker_process_killed" if fault["kind"] == "die" else "task_raised")
+        run.event(0, "pmap_pre", "n=%d nproc=%d cs=%d %s@%d" % (n, pc["nproc"], pc["chunksize"], fault["kind"], fault["at"]),
+                  "error" if err is not None else "returned")
+        if judge and err is None and status in ("ok", "fault-injected"):
+            run.checks += 1
+            run.fail("prog.pmap.swallowed", feats, "pmap returned %r although the task of item %d %s"
+                     % (got, fault["at"], "killed its worker process" if fault["kind"] == "die" else "raised"))
+        return
+    if status != "ok":
+        run.inconclusive += 1
+        run.event(0, "pmap_pre", "n=%d" % n, "inconclusive")
+        return
+    run.event(0, "pmap_pre", "n=%d nproc=%d cs=%d" % (n, pc["nproc"], pc["chunksize"]),
+              "ok" if err is None else "error(%s)" % type(err).__name__)
+    if judge:
+        run.checks += 1
+        exp = [plain(it) for it in items]
+        if err is not None:
+            run.fail("prog.pmap.raises", feats, "pmap(fn, %d items, chunksize=%d, nproc=%d) raised %r" % (n, pc["chunksize"], pc["nproc"], err))
+        elif got != exp:
+            run.fail("prog.pmap.order", feats, "pmap(fn, %d items, chunksize=%d, nproc=%d) != list(map(fn, items)) under completion order %r: got %r"
+                     % (n, pc["chunksize"], pc["nproc"], sigma, got))
+
+
+def execute_pool(script, run, env):
     cfg = script["cfg"]
     judge = run.prop == "C20"
     ops = script["ops"]
@@ -840,9 +1036,9 @@ def execute_pool(script, run, env):
         pieces = pieces[:n]
         n = len(pieces)
         lat = lat[:n]
-        items = [(i, pieces[i]) for i in range(n)]
+        items = [(i, pieces[i], None, work, None) for i in range(n)]
     else:
-        items = [(i, i * 7 + 3) for i in range(n)]
+        items = [(i, i * 7 + 3, None, work, None) for i in range(n)]
     sigma, comp, makespan, chunks = pool_model(n, nproc, chunksize, lat, cfg.get("tiebreak", "index"))
     kw = dict(cfg["kw"])
     if "total" in kw:
@@ -850,59 +1046,25 @@ def execute_pool(script, run, env):
     buf = io.StringIO()
     kw["file"] = buf
     clock = SimClock(cfg["clock"]["t0"], cfg["clock"]["steps"])
-
-    ctx = multiprocessing.get_context("fork")
-    gates = [ctx.Semaphore(0) for _ in range(n)]
-    rconn, wconn = ctx.Pipe(duplex=False)
-    rep_r, rep_w = ctx.Pipe(duplex=False)
-    lock = ctx.Lock()
-    _G.clear()
-    _G.update({"gates": gates, "w": wconn, "lock": lock, "work": work})
+    root = env.disk()
     expected = [plain(it) for it in items]
-    watchdog = float(os.environ.get("VERIF_POOL_WATCHDOG", "8"))
-    sys.stdout.flush()
-    sys.stderr.flush()
-    cpid = os.fork()
-    if cpid == 0:
-        try:
-            rep_r.close()
-            _controller(sigma, gates, rconn, rep_w, watchdog)
-        finally:
-            os._exit(0)
-    rep_w.close()
-    err = None
-    got = None
-    try:
-        with _ClockInstalled(clock, False):
-            try:
-                got = pb.pmap(gated, items, chunksize=chunksize, nproc=nproc, **kw)
-            except Exception as e:
-                err = e
-    finally:
-        status = "inconclusive:no report"
-        try:
-            if rep_r.poll(watchdog * 2 + 10):
-                status, start_order, done = rep_r.recv()
-        except Exception:
-            pass
-        try:
-            pid_, st_ = os.waitpid(cpid, os.WNOHANG)
-            if pid_ == 0:
-                os.kill(cpid, 9)
-                os.waitpid(cpid, 0)
-        except OSError:
-            pass
-        for c in (rconn, wconn, rep_r):
-            try:
-                c.close()
-            except Exception:
-                pass
-        _G.clear()
+    pre = cfg.get("pre") or []
+    for j, pc in enumerate(pre):
+        _pre_call(run, root, j, pc, judge, clock)
+        if run.failures:
+            return
+    after_fault = [pc["fault"]["kind"] for pc in pre if pc.get("fault") and pc["fault"]["at"] < len(pc["lat"])]
+    if pre:
+        run.fault("earlier_pmap_calls_in_the_same_process", len(pre))
+    status, got, err = _run_call(run, root, len(pre), items, sigma, nproc, chunksize, kw, clock)
     inversions = sum(1 for a in range(len(sigma)) for b in range(a + 1, len(sigma)) if sigma[a] > sigma[b])
     feats = {"total": "given" if "total" in cfg["kw"] else "none", "simple": bool(kw.get("simple")),
              "out_of_order": inversions > 0}
+    if after_fault:
+        feats["after"] = after_fault[-1]
+        run.fault("pmap_call_after_a_failed_one")
     run.virtual_s += makespan + clock.covered
-    if status != "ok":
+    if status != "ok" and not (err is not None and after_fault):
         run.inconclusive += 1
         run.event(0, "pmap", "n=%d nproc=%d cs=%d" % (n, nproc, chunksize), "inconclusive")
         run.probe("inconclusive:" + status.split(":", 1)[-1].split("(")[0])
@@ -923,15 +1085,18 @@ def execute_pool(script, run, env):
         run.fault("chunk_larger_than_input")
     if nproc == 1:
         run.probe("single_worker")
-    run.states.add("nproc=%d|chunks=%s|inv=%s" % (nproc, _bucket(len(chunks)), _bucket(inversions)))
+    run.states.add("nproc=%d|chunks=%s|inv=%s|pre=%d%s" % (nproc, _bucket(len(chunks)), _bucket(inversions), len(pre),
+                                                         "|after=" + after_fault[-1] if after_fault else ""))
     # distinct sigma up to order-isomorphism: sigma itself (items are 0..n-1)
     run.trans.add("sigma=" + sdigest(sigma) if n > 8 else "sigma=%r" % (sigma,))
-    run.nontrivial = inversions > 0
+    run.nontrivial = inversions > 0 or bool(after_fault)
     if err is not None:
         run.event(0, "pmap", "n=%d nproc=%d cs=%d" % (n, nproc, chunksize), "error(%s)" % type(err).__name__)
         if judge:
-            run.fail("prog.pmap.raises", feats, "pmap(fn, %d items, chunksize=%d, nproc=%d, %r) raised %r"
-                     % (n, chunksize, nproc, cfg["kw"], err))
+            run.fail("prog.pmap.raises", feats, "pmap(fn, %d items, chunksize=%d, nproc=%d, %r)%s raised %r"
+                     % (n, chunksize, nproc, cfg["kw"],
+                        " after an earlier pmap call whose task %s" % ("killed its worker process" if after_fault[-1] == "die" else "raised")
+                        if after_fault else "", err))
         return
     run.event(0, "pmap", "n=%d nproc=%d cs=%d" % (n, nproc, chunksize), "ok",
               sdigest(adigest([np.asarray(x) if not isinstance(x, tuple) else tuple(np.asarray(y) for y in x) for x in got]))
@@ -971,6 +1136,18 @@ def simplify(script):
                     yield dict(script, ops=ops[:i] + [dict(op, **{key: val})] + ops[i + 1:])
         return
     if script.get("mode") == "pool":
+        pre = cfg.get("pre") or []
+        for k in range(len(pre)):
+            c = dict(script)
+            c["cfg"] = dict(cfg, pre=pre[:k] + pre[k + 1:])
+            yield c
+            if len(pre[k]["lat"]) > 1:
+                pc = dict(pre[k], lat=pre[k]["lat"][:1])
+                if pc.get("fault"):
+                    pc["fault"] = dict(pc["fault"], at=0)
+                c = dict(script)
+                c["cfg"] = dict(cfg, pre=pre[:k] + [pc] + pre[k + 1:])
+                yield c
         for key, val in (("nproc", 2), ("nproc", 1), ("chunksize", 1), ("kw", {}), ("pipeline", None),
                          ("tiebreak", "index")):
             if cfg.get(key) != val:
